@@ -58,6 +58,8 @@
 #include <time.h>
 #include <unistd.h>
 #include <dlfcn.h>
+#include <sys/syscall.h>
+#include <sys/stat.h>
 
 #ifndef GRND_INSECURE
 #define GRND_INSECURE 0x0004
@@ -76,6 +78,7 @@ static int clock_owned = 0;
 static uint64_t clock_base = 0;
 static uint64_t clock_step = 0;
 static uint64_t clock_reads = 0;
+static uint64_t clock_extra = 0; /* simulated time that passed inside timed waits and sleeps */
 static long fake_pid = 0;
 static unsigned stall_us[16];
 static int stall_n = 0;
@@ -96,6 +99,21 @@ static uint64_t splitmix(uint64_t *s) {
     z = (z ^ (z >> 27)) * 0x94D049BB133111EBULL;
     return z ^ (z >> 31);
 }
+
+/* Raw system call: everything the shim itself needs from the kernel goes through this, because
+   the libc wrappers `syscall`, `read` and `nanosleep` are themselves interposed below. */
+static long raw6(long n, long a, long b, long c, long d, long e, long f) {
+    long ret;
+    register long r10 __asm__("r10") = d;
+    register long r8 __asm__("r8") = e;
+    register long r9 __asm__("r9") = f;
+    __asm__ volatile("syscall" : "=a"(ret) : "a"(n), "D"(a), "S"(b), "d"(c), "r"(r10), "r"(r8), "r"(r9) : "rcx", "r11", "memory");
+    return ret;
+}
+static long wait_ppm = 1000000;   /* timed waits and sleeps last this many millionths of what was asked */
+static long read_chunk = 0;       /* reads of regular files deliver at most 1..read_chunk bytes per call */
+static long read_eintr = 0;       /* the first n reads of regular files fail with EINTR */
+static uint64_t read_state = 0;
 
 static void set_key_hex(const char *k);
 static void set_stalls(const char *list);
@@ -128,6 +146,12 @@ static void init_once(void) {
     fake_rss_kib = rss ? strtol(rss, NULL, 10) : 0;
     set_stalls(getenv("GRAMSIM_STALL"));
     set_lingers(getenv("GRAMSIM_LINGER"));
+    const char *wp = getenv("GRAMSIM_WAIT_PPM");
+    if (wp) wait_ppm = strtol(wp, NULL, 10);
+    const char *rc = getenv("GRAMSIM_READ_CHUNK");
+    if (rc) read_chunk = strtol(rc, NULL, 10);
+    const char *re = getenv("GRAMSIM_READ_EINTR");
+    if (re) read_eintr = strtol(re, NULL, 10);
     const char *l = getenv("GRAMSIM_LOG");
     if (l) log_fd = open(l, O_WRONLY | O_CREAT | O_APPEND | O_CLOEXEC, 0644);
 }
@@ -236,6 +260,7 @@ static void forkserver(char **argv) {
     char linger_list[256] = "";
     size_t heap = 0, map = 0;
     long p_eintr = 0, p_noinsecure = 0, p_chunk = 0, p_pid = 0, p_rss = 0;
+    long p_wait = 1000000, p_rchunk = 0, p_reintr = 0;
     unsigned long long p_clock = 0, p_step = 0;
     int have_clock = 0;
     /* pending argv / env edits of the next launch */
@@ -261,6 +286,8 @@ static void forkserver(char **argv) {
         }
         else if (!strncmp(line, "PID ", 4)) p_pid = strtol(line + 4, NULL, 10);
         else if (!strncmp(line, "RSS ", 4)) p_rss = strtol(line + 4, NULL, 10);
+        else if (!strncmp(line, "WAIT ", 5)) p_wait = strtol(line + 5, NULL, 10);
+        else if (!strncmp(line, "READ ", 5)) { char *end = NULL; p_rchunk = strtol(line + 5, &end, 10); p_reintr = end ? strtol(end, NULL, 10) : 0; }
         else if (!strncmp(line, "STALL ", 6)) { strncpy(stall_list, line + 6, sizeof stall_list - 1); }
         else if (!strncmp(line, "LINGER ", 7)) { strncpy(linger_list, line + 7, sizeof linger_list - 1); }
         else if (!strncmp(line, "LOG ", 4)) strncpy(log_path, line + 4, sizeof log_path - 1);
@@ -292,9 +319,10 @@ static void forkserver(char **argv) {
                 for (int i = 1; i < 16; i++) if (arg_val[i]) argv[i] = arg_val[i];
                 set_key_hex(key_hex);
                 eintr_left = p_eintr; no_insecure = (int)p_noinsecure; chunk = (size_t)p_chunk;
-                clock_owned = have_clock; clock_base = p_clock; clock_step = p_step; clock_reads = 0;
+                clock_owned = have_clock; clock_base = p_clock; clock_step = p_step; clock_reads = 0; clock_extra = 0;
                 fake_pid = p_pid;
                 fake_rss_kib = p_rss;
+                wait_ppm = p_wait; read_chunk = p_rchunk; read_eintr = p_reintr; read_state = 0;
                 cpu_readings = 0;
                 tid_next = 0;
                 tid_index = -1;
@@ -321,6 +349,7 @@ static void forkserver(char **argv) {
             for (int i = 1; i < 16; i++) { free(arg_val[i]); arg_val[i] = NULL; }
             n_env_set = n_env_unset = 0;
             heap = map = 0; p_eintr = p_noinsecure = p_chunk = p_pid = p_rss = 0; have_clock = 0;
+            p_wait = 1000000; p_rchunk = p_reintr = 0;
             out_path[0] = err_path[0] = log_path[0] = cwd[0] = key_hex[0] = stall_list[0] = linger_list[0] = 0;
         }
     }
@@ -374,7 +403,7 @@ static void log_mark(const char *mark) {
 
 /* Simulated time: seconds since the epoch chosen by the plan, advancing by a fixed step per read. */
 static void sim_now(uint64_t *sec, uint64_t *nsec) {
-    uint64_t total = clock_step * clock_reads++;
+    uint64_t total = clock_step * clock_reads++ + clock_extra;
     *sec = clock_base + total / 1000000000ULL;
     *nsec = total % 1000000000ULL;
     log_mark("T\n");
@@ -450,7 +479,7 @@ static void *stalled_trampoline(void *p) {
     struct stalled_start s = *(struct stalled_start *)p;
     free(p);
     struct timespec ts = { s.us / 1000000, (long)(s.us % 1000000) * 1000L };
-    while (nanosleep(&ts, &ts) != 0 && errno == EINTR) {}
+    while (raw6(SYS_nanosleep, (long)&ts, (long)&ts, 0, 0, 0, 0) == -EINTR) {}
     return s.start(s.arg);
 }
 
@@ -477,7 +506,7 @@ int pthread_create(pthread_t *thread, const pthread_attr_t *attr, void *(*start)
         int n = snprintf(line, sizeof line, "Z %d -%u\n", k, linger_us[k]);
         if (n > 0) log_mark(line);
         struct timespec ts = { linger_us[k] / 1000000, (long)(linger_us[k] % 1000000) * 1000L };
-        while (nanosleep(&ts, &ts) != 0 && errno == EINTR) {}
+        while (raw6(SYS_nanosleep, (long)&ts, (long)&ts, 0, 0, 0, 0) == -EINTR) {}
     }
     return rc;
 }
@@ -609,7 +638,7 @@ static int patched_proc_file(const char *path) {
     int real = (int)syscall(SYS_openat, AT_FDCWD, path, O_RDONLY | O_CLOEXEC, 0);
     if (real < 0) return -1;
     static char in[16384], out[20000];
-    ssize_t n = read(real, in, sizeof in - 1);
+    ssize_t n = (ssize_t)raw6(SYS_read, real, (long)in, (long)(sizeof in - 1), 0, 0, 0);
     close(real);
     if (n <= 0) return -1;
     in[n] = 0;
@@ -789,6 +818,143 @@ int sched_getcpu(void) {
     }
     log_mark("P\n");
     return key_bytes[5] % 16;
+}
+
+/* ---- Timed waits and sleeps (S71) ------------------------------------------------------------
+   How long a timed wait really lasts is the scheduler's business, not the input's: a thread that
+   asks to wait at most 40 ms may be descheduled for all of it, or the machine may be idle. Under
+   the simulator a timed wait or a sleep lasts wait_ppm millionths of what was asked (0: it
+   expires at once; 1000000: faithful). Absolute deadlines are read against the *simulated* clock,
+   which is the clock the program computed them from. Rust's std parks threads, waits on Condvars
+   and receives with a timeout through libc's `syscall(SYS_futex, ...)`, which is why `syscall`
+   itself is interposed. */
+#include <linux/futex.h>
+
+static void sim_peek(uint64_t *sec, uint64_t *nsec) {
+    uint64_t total = clock_step * clock_reads + clock_extra;
+    *sec = clock_base + total / 1000000000ULL;
+    *nsec = total % 1000000000ULL;
+}
+
+/* the plan's share of a requested duration, in nanoseconds (capped at 30 s) */
+static uint64_t scaled_ns(uint64_t ns) {
+    if (wait_ppm == 1000000) return ns;
+    __uint128_t v = (__uint128_t)ns * (uint64_t)wait_ppm / 1000000ULL;
+    if (v > 30000000000ULL) v = 30000000000ULL;
+    return (uint64_t)v;
+}
+
+static uint64_t rel_from_abs(const struct timespec *abs) {
+    uint64_t s, n;
+    sim_peek(&s, &n);
+    if ((uint64_t)abs->tv_sec < s || ((uint64_t)abs->tv_sec == s && (uint64_t)abs->tv_nsec <= n)) return 0;
+    uint64_t ds = (uint64_t)abs->tv_sec - s;
+    if (ds > 4000000000ULL) ds = 4000000000ULL;
+    return ds * 1000000000ULL + (uint64_t)abs->tv_nsec - n;
+}
+
+static int timed_waits_owned(void) { return clock_owned && fake_pid; }
+
+static int do_sleep_ns(uint64_t ns) {
+    if (ns == 0) return 0;
+    struct timespec ts = { (time_t)(ns / 1000000000ULL), (long)(ns % 1000000000ULL) };
+    long r;
+    while ((r = raw6(SYS_nanosleep, (long)&ts, (long)&ts, 0, 0, 0, 0)) == -EINTR) {}
+    return 0;
+}
+
+int nanosleep(const struct timespec *req, struct timespec *rem) {
+    init_once();
+    if (!timed_waits_owned() || !req) {
+        long r = raw6(SYS_nanosleep, (long)req, (long)rem, 0, 0, 0, 0);
+        if (r < 0) { errno = (int)-r; return -1; }
+        return 0;
+    }
+    log_mark("W\n");
+    if (rem) { rem->tv_sec = 0; rem->tv_nsec = 0; }
+    uint64_t asked = (uint64_t)req->tv_sec * 1000000000ULL + (uint64_t)req->tv_nsec;
+    do_sleep_ns(scaled_ns(asked));
+    __atomic_fetch_add(&clock_extra, asked, __ATOMIC_SEQ_CST); /* the time asked for has passed */
+    return 0;
+}
+
+int clock_nanosleep(clockid_t clk, int flags, const struct timespec *req, struct timespec *rem) {
+    init_once();
+    if (!timed_waits_owned() || !req) {
+        long r = raw6(SYS_clock_nanosleep, clk, flags, (long)req, (long)rem, 0, 0);
+        return r < 0 ? (int)-r : 0;
+    }
+    log_mark("W\n");
+    uint64_t ns = (flags & TIMER_ABSTIME) ? rel_from_abs(req) : (uint64_t)req->tv_sec * 1000000000ULL + (uint64_t)req->tv_nsec;
+    if (rem) { rem->tv_sec = 0; rem->tv_nsec = 0; }
+    do_sleep_ns(scaled_ns(ns));
+    __atomic_fetch_add(&clock_extra, ns, __ATOMIC_SEQ_CST);
+    return 0;
+}
+
+int usleep(useconds_t us) {
+    struct timespec ts = { us / 1000000, (long)(us % 1000000) * 1000L };
+    return nanosleep(&ts, NULL);
+}
+
+unsigned int sleep(unsigned int seconds) {
+    struct timespec ts = { seconds, 0 };
+    nanosleep(&ts, NULL);
+    return 0;
+}
+
+long syscall(long number, ...) {
+    va_list ap;
+    va_start(ap, number);
+    long a = va_arg(ap, long), b = va_arg(ap, long), c = va_arg(ap, long);
+    long d = va_arg(ap, long), e = va_arg(ap, long), f = va_arg(ap, long);
+    va_end(ap);
+    if (number == SYS_futex && d != 0 && ready && timed_waits_owned()) {
+        int cmd = (int)b & 0x7f; /* without FUTEX_PRIVATE_FLAG (128); FUTEX_CLOCK_REALTIME is 256 */
+        const struct timespec *to = (const struct timespec *)d;
+        if (cmd == FUTEX_WAIT || cmd == FUTEX_WAIT_BITSET) {
+            uint64_t ns = cmd == FUTEX_WAIT ? (uint64_t)to->tv_sec * 1000000000ULL + (uint64_t)to->tv_nsec : rel_from_abs(to);
+            uint64_t asked = ns;
+            ns = scaled_ns(ns);
+            /* wait relative to now, for the plan's share of the time that was left */
+            struct timespec rel = { (time_t)(ns / 1000000000ULL), (long)(ns % 1000000000ULL) };
+            long op = (b & ~0x7fL & ~256L) | FUTEX_WAIT; /* relative timeout, CLOCK_MONOTONIC */
+            log_mark("W\n");
+            long r = raw6(SYS_futex, a, op, c, (long)&rel, 0, 0);
+            /* a wait that ran out: the whole time asked for has passed on the simulated clock */
+            if (r == -ETIMEDOUT) __atomic_fetch_add(&clock_extra, asked, __ATOMIC_SEQ_CST);
+            if (r < 0) { errno = (int)-r; return -1; }
+            return r;
+        }
+    }
+    long r = raw6(number, a, b, c, d, e, f);
+    if (r < 0 && r > -4096) { errno = (int)-r; return -1; }
+    return r;
+}
+
+/* ---- Short reads (files) ----------------------------------------------------------------------
+   read(2) may always return fewer bytes than asked, and may fail with EINTR before any byte is
+   transferred. Under the simulator reads of regular files deliver 1..read_chunk bytes per call
+   (sizes drawn from the key) and the first read_eintr of them are interrupted. */
+ssize_t read(int fd, void *buf, size_t count) {
+    static long reads_cut = 0; /* a launch gets at most 2000 shortened reads; then the rest of the file comes at once */
+    if (ready && read_chunk > 0 && count > 0 && fake_pid && reads_cut < 2000) {
+        struct stat st;
+        if (raw6(SYS_fstat, fd, (long)&st, 0, 0, 0, 0) == 0 && S_ISREG(st.st_mode)) {
+            if (read_eintr > 0) {
+                read_eintr--;
+                log_mark("R\n");
+                errno = EINTR;
+                return -1;
+            }
+            if (!read_state) read_state = tail_state ^ 0x72656164ULL;
+            size_t want = 1 + (size_t)(splitmix(&read_state) % (uint64_t)read_chunk);
+            if (want < count) { count = want; reads_cut++; log_mark("R\n"); }
+        }
+    }
+    long r = raw6(SYS_read, fd, (long)buf, (long)count, 0, 0, 0);
+    if (r < 0) { errno = (int)-r; return -1; }
+    return (ssize_t)r;
 }
 
 /* Cycle counter (RDTSC): not owned. prctl(PR_SET_TSC, PR_TSC_SIGSEGV) is accepted in this VM but
